@@ -42,6 +42,7 @@ type entry struct {
 	a, aaaa           []netip.Addr // addresses of the proper type in the accepted responses
 	crossA, crossAAAA []netip.Addr // addresses of the *other* type found in an accepted response (use is left open)
 	members           []ival
+	neverOK           bool // the accepted responses alone give no lifetime at all: asking upstream again is always admissible
 	ttlDesc           string
 }
 
@@ -61,8 +62,8 @@ func (e *entry) observeHit(t time.Time) bool {
 }
 
 func (e *entry) observeMiss(t time.Time) bool {
-	if len(e.members) == 0 {
-		return true // nothing allowed this entry to be fresh at any time
+	if len(e.members) == 0 || e.neverOK {
+		return true // nothing obliged this entry to be fresh at any time
 	}
 	keep := e.members[:0]
 	for _, m := range e.members {
@@ -138,6 +139,12 @@ func (ev *tcpEval) done() bool { return ev.acc[4] != nil && ev.acc[6] != nil }
 // documentation (bad queries, giving up on a healthy connection, no retry after a clean EOF).
 func evalTCP(name string, s *lookupScript, obs []*connObs, start, end time.Time, acc map[int]*item) (*tcpEval, string) {
 	ev := &tcpEval{acc: acc, conns: len(obs)}
+	// The time limit of the TCP retry counts from the moment TCP is tried: a UDP phase that ran
+	// into its own time limit must not eat the time of the retry ("retrying over TCP when UDP is
+	// ... unanswered"). For a TCP-only resolver the first dial happens at the start of the lookup.
+	if len(obs) > 0 && obs[0].DialAt.After(start) {
+		start = obs[0].DialAt
+	}
 	timeUp := func(t time.Time) bool { return t.Sub(start) >= lookupTimeout }
 	for ci, o := range obs {
 		var cs connScript
@@ -165,6 +172,9 @@ func evalTCP(name string, s *lookupScript, obs []*connObs, start, end time.Time,
 		}
 		if ci > 0 {
 			ev.retried = true
+		}
+		if o.CtxExpired && !timeUp(o.DialAt) {
+			return ev, fmt.Sprintf("SIG=C17/tcp-dialed-with-expired-context conn=%d after=%v of the TCP phase", ci, o.DialAt.Sub(start))
 		}
 		bad := o.DialErr
 		for i := 0; i < o.Consumed && i < len(cs.Items); i++ {
@@ -213,6 +223,10 @@ func buildEntry(acc map[int]*item, t0, t1 time.Time, leftovers ...*item) *entry 
 	for _, f := range []int{4, 6} {
 		it := acc[f]
 		own := 0
+		if it.Msg.PadTo > 0 { // TXT padding records appended when the message is packed
+			all = append(all, it.Msg.PadTTL)
+			other = true
+		}
 		for _, r := range it.Msg.Answers {
 			all = append(all, r.TTL)
 			switch r.Type {
@@ -277,6 +291,7 @@ func buildEntry(acc map[int]*item, t0, t1 time.Time, leftovers ...*item) *entry 
 			add(0, "ttl-msb-as-zero")
 		}
 	}
+	e.neverOK = len(ds) == 0
 	for _, it := range leftovers {
 		for _, r := range it.Msg.Answers {
 			add(r.TTL, "leftover-ttl")
@@ -298,6 +313,15 @@ func buildEntry(acc map[int]*item, t0, t1 time.Time, leftovers ...*item) *entry 
 	}
 	e.ttlDesc = fmt.Sprint(ds)
 	return e
+}
+
+// brief renders an address list for messages; long lists are abbreviated.
+func brief(a []netip.Addr) string {
+	k := addrKey(a)
+	if len(k) > 8 {
+		return fmt.Sprintf("[%s ... %d more]", strings.Join(k[:6], " "), len(k)-6)
+	}
+	return fmt.Sprint(k)
 }
 
 func addrKey(a []netip.Addr) []string {
@@ -343,7 +367,7 @@ type lookupOut struct {
 }
 
 func (o *lookupOut) String() string {
-	return fmt.Sprintf("api=%d a=%v aaaa=%v one=%v err=%v", o.api, addrKey(o.a), addrKey(o.aaaa), o.one, o.err)
+	return fmt.Sprintf("api=%d a(%d)=%s aaaa(%d)=%s one=%v err=%v", o.api, len(o.a), brief(o.a), len(o.aaaa), brief(o.aaaa), o.one, o.err)
 }
 
 // matches reports whether the outcome is the stored answer e.
@@ -373,5 +397,5 @@ func (e *entry) String() string {
 	if e == nil {
 		return "<none>"
 	}
-	return fmt.Sprintf("a=%v aaaa=%v crossA=%v crossAAAA=%v ttl=%s", addrKey(e.a), addrKey(e.aaaa), addrKey(e.crossA), addrKey(e.crossAAAA), e.ttlDesc)
+	return fmt.Sprintf("a(%d)=%s aaaa(%d)=%s crossA=%s crossAAAA=%s ttl=%s", len(e.a), brief(e.a), len(e.aaaa), brief(e.aaaa), brief(e.crossA), brief(e.crossAAAA), e.ttlDesc)
 }
